@@ -55,6 +55,7 @@ def on_grid(cc, size, chunk):
 
 class ChunkIO(RuleBasedStateMachine):
     plain_invariants = ()
+    LARGE = False
 
     def __init__(self):
         super().__init__()
@@ -88,6 +89,13 @@ class ChunkIO(RuleBasedStateMachine):
               kind, bits, shard_enc, quality, plane):
         sharded = kind.startswith("sharded")
         scales = []
+        if self.LARGE:
+            # chunks of 33..48 voxels per axis (36 KB .. 880 KB encoded),
+            # volumes up to 100 voxels per axis
+            nscales = min(nscales, 2)
+            sizes = [min(100, 41 + 3 * s // 2) for s in sizes]
+            chunks = [32 + c for c in chunks]
+            channels = 1 if channels == 2 else channels
         for i in range(nscales):
             size = sizes[3 * i:3 * i + 3]
             chunk = chunks[3 * i:3 * i + 3]
@@ -382,9 +390,28 @@ def run(ctx, n):
     ctx.run_machine(M, n, 25 if ctx.tier == "quick" else 50)
 
 
+class ChunkIOLarge(ChunkIO):
+    LARGE = True
+
+
+def run_large(ctx, n):
+    class M(ChunkIOLarge):
+        def teardown(self):
+            if self.root:
+                ctx.record(self.history, len(self.model) > 0,
+                           sorted(self.flags) + [self.kind, "large"])
+            super().teardown()
+    M.__name__ = "ChunkIOLarge"
+    ctx.run_machine(M, n, 12 if ctx.tier == "quick" else 25)
+
+
 def replay(ctx, history):
-    replay_history(ChunkIO, ctx, history)
+    large = bool(history) and history[0][0] == "setup" and ctx.sub == \
+        "machine_large"
+    replay_history(ChunkIOLarge if large else ChunkIO, ctx, history)
 
 
 SUBS = [Sub("machine", run, replay, quick=400, thorough=6000,
-            min_per_shard=10)]
+            min_per_shard=10),
+        Sub("machine_large", run_large, replay, quick=42, thorough=700,
+            min_per_shard=3)]
